@@ -81,7 +81,8 @@ public:
   const DataType& coeffs() const;
 
   //! @brief Access the underlying data by pointer
-  Scalar* data();
+  //! (pointer to const for a view over const memory)
+  auto data() -> decltype(std::declval<DataType&>().data());
   //! @brief Access the underlying data by const pointer
   const Scalar* data() const;
 
@@ -398,8 +399,8 @@ LieGroupBase<_Derived>::coeffs() const
 }
 
 template <typename _Derived>
-typename LieGroupBase<_Derived>::Scalar*
-LieGroupBase<_Derived>::data()
+auto LieGroupBase<_Derived>::data()
+-> decltype(std::declval<DataType&>().data())
 {
   return derived().coeffs().data();
 }
